@@ -5,7 +5,7 @@ func init() {
 		Rules: []string{"PAIR.frame", "PAIR.condition", "PAIR.nesting", "PAIR.package", "PAIR.load-package", "PAIR.evalctx", "PAIR.terminal-reset", "PAIR.loc"},
 		Explanation: "per-evaluation runtime state (frames, condition stack, eval nesting, current package, evaluation context, terminal flag, location) is released/restored by a defer on every exit, including recovered panics",
 		Assumptions: []string{"Go defers run on panic unwinding", "go/types + go/cfg model of the working tree"},
-		ThoroughConfigs: []string{"elpscheck", "386"},
+		ThoroughConfigs: []string{"elpscheck"},
 	})
 	registerProp(PropSpec{ID: "C02",
 		Rules: []string{"CENSUS.CallFrame.Terminal", "CENSUS.CallFrame.TROBlock", "CENSUS.CallStack.Frames", "CENSUS.CallFrame.HeightLogical", "CENSUS.CallFrame.TailIterations",
@@ -14,13 +14,13 @@ func init() {
 			"PAIR.terminal-reset", "PAIR.frame"},
 		Explanation: "frame-accounting protocol of tail-call elimination: who may mark a frame terminal or blocked, that a terminal frame returns its evaluator call verbatim, that blocked frames are blocked before anything is evaluated and never return terminal expressions, that recognition is gated on Debugger==nil, and that the two call loops consume marks only after the limit checks",
 		Assumptions: []string{"go/types + go/cfg model of the working tree", "static call resolution (dynamic calls through LBuiltin values are the registry, handled by the census of writers)"},
-		ThoroughConfigs: []string{"elpscheck", "386"},
+		ThoroughConfigs: []string{"elpscheck"},
 	})
 	registerProp(PropSpec{ID: "C03",
 		Rules: []string{"REG.resolved", "REG.formals", "REG.arity"},
 		Explanation: "panic classes of the interpreter decided per site",
 		Assumptions: []string{"go/types + go/cfg model of the working tree"},
-		ThoroughConfigs: []string{"elpscheck", "386"},
+		ThoroughConfigs: []string{"elpscheck"},
 	})
 	registerProp(PropSpec{ID: "C04",
 		Rules: []string{"ENTRY.begin-eval", "LIMIT.result-returned", "HEIGHT.push-check", "HEIGHT.check-chain", "HEIGHT.nesting-check", "POLL.eval-cycles", "POLL.int-loops", "TRO.mark-consumed",
@@ -28,6 +28,19 @@ func init() {
 			"PAIR.nesting", "PAIR.frame"},
 		Explanation: "limit discipline as control-flow facts",
 		Assumptions: []string{"go/types + go/cfg model of the working tree"},
-		ThoroughConfigs: []string{"elpscheck", "386"},
+		ThoroughConfigs: []string{"elpscheck"},
+	})
+	registerProp(PropSpec{ID: "C20",
+		Rules: []string{"CONFINE.relative", "CONFINE.fs", "CONFINE.readers", "CONFINE.load-funnel"},
+		Explanation: "value-flow recipe of root confinement",
+		Assumptions: []string{"filepath.EvalSymlinks / os.ReadFile / io/fs semantics are trusted", "SSA model of the working tree"},
+		ThoroughConfigs: []string{"windows", "elpscheck"},
+	})
+	registerProp(PropSpec{ID: "C06",
+		Rules: []string{"CARVE.ignore-errors", "CARVE.handler-bind", "RETHROW.identity", "PANICMARK.shape", "PAIR.condition",
+			"CENSUS.CallStack.GoStack", "CENSUS.Runtime.conditionStack", "CALLERS.PushCondition", "CALLERS.PopCondition"},
+		Explanation: "handler selection and the host-panic carve-out as control-flow facts",
+		Assumptions: []string{"go/types + go/cfg model of the working tree"},
+		ThoroughConfigs: []string{"elpscheck"},
 	})
 }
